@@ -47,7 +47,7 @@ def joints_of(spec):
 
 
 def letter(jt, kind, cl, fl, k):
-  a = dict(joint=list(jt), kind=kind, gear=[0.5, 2.0, 3.0, 1.0][k % 4])
+  a = dict(joint=list(jt), kind=kind, gear=[0.5, 2.0, 3.0, 1.0, -1.5][k % 5])
   if kind == 'position':
     a['kp'] = 5.0 + k % 3
     if k % 2:
@@ -56,6 +56,8 @@ def letter(jt, kind, cl, fl, k):
     a['kv'] = 2.0 + k % 2
   if cl:
     a['ctrlrange'] = CR
+  if cl == 2:
+    a['ctrllimited'] = 'false'   # a range is given but the limit is off
   if fl:
     a['forcerange'] = [-0.8, 0.5] if kind == 'motor' else [-2.5, 1.5]
   return a
@@ -64,16 +66,18 @@ def letter(jt, kind, cl, fl, k):
 def lists(spec, tier):
   J = joints_of(spec)
   K = ['motor', 'position', 'velocity']
-  L = [(jt, k, cl, fl) for jt in J for k in K for cl in (0, 1) for fl in (0, 1)]
+  L = [(jt, k, cl, fl) for jt in J for k in K for cl in (0, 1, 2)
+       for fl in (0, 1)]
   out = [[]]
   out += [[x] for x in L]
   base = [(jt, k) for jt in J for k in K]
   if len(J) <= 1 or tier != 'quick':
     out += [[a, b] for a in L for b in L]
   else:
-    pats = [(0, 0, 0, 0), (1, 1, 1, 1), (1, 0, 0, 1), (0, 1, 1, 0)]
+    pats = [(0, 0, 0, 0), (1, 1, 1, 1), (1, 0, 0, 1), (0, 1, 1, 0),
+            (2, 1, 2, 0)]
     for n, (a, b) in enumerate(itertools.product(base, base)):
-      p = pats[n % 4]
+      p = pats[n % 5]
       out.append([(a[0], a[1], p[0], p[1]), (b[0], b[1], p[2], p[3])])
   if tier != 'quick':
     for a, b, c in itertools.product(base, repeat=3):
@@ -147,6 +151,8 @@ def check_list(spec, lst, seed, res, tier):
   for (jt, k, cl, fl) in lst:
     actuated.add(dadr[tuple(jt)])
   nt = nu >= 2 or any(x[2] or x[3] for x in lst)
+  # forces of a list add, so several actuators on one dof are not monotone
+  # in one control only if gears differ in sign: handled per actuator below
   case0 = dict(spec=spec, seed=seed,
                list=[[list(x[0]), x[1], x[2], x[3]] for x in lst])
   for (q, qd) in states(s, seed):
@@ -180,13 +186,14 @@ def check_list(spec, lst, seed, res, tier):
       for a in range(nu):
         Ta = np.moveaxis(T, a, 0)
         d = dadr[tuple(lst[a][0])]
-        if np.any(np.diff(Ta[..., d], axis=0) < -1e-12):
+        gear_a = letter(lst[a][0], lst[a][1], lst[a][2], lst[a][3], a)['gear']
+        if gear_a > 0 and np.any(np.diff(Ta[..., d], axis=0) < -1e-12):
           res['violations'].append(dict(
               key='C11:monotone', what='force on dof %d decreases along '
               'control %d' % (d, a), case=dict(case0, q=q.tolist(),
                                                qd=qd.tolist(), ctrl=None)))
           return
-        if lst[a][2]:
+        if lst[a][2] == 1:
           if np.any(Ta[0] != Ta[1]) or np.any(Ta[4] != Ta[5]):
             res['violations'].append(dict(
                 key='C11:ctrl-clip', what='force changes outside the control '
